@@ -80,7 +80,7 @@ type variation struct {
 	name string
 	env  []string
 	db   string
-	mode string // process history of the replica: plain | restart | restart-all | sim | sim-restart | statesync | statesync-all
+	mode string // process history of the replica: plain | restart | restart-all | restart-histq | histq | sim | sim-restart | statesync | statesync-all
 }
 
 var variations = []variation{
@@ -90,12 +90,13 @@ var variations = []variation{
 	{"procs2-kiritimati-gogc1-statesync", []string{"GOMAXPROCS=2", "TZ=Pacific/Kiritimati", "GOGC=1"}, "", "statesync-all"},
 	{"procs8-abidjan-nopreempt-simrestart", []string{"GOMAXPROCS=8", "TZ=Africa/Abidjan", "GODEBUG=asyncpreemptoff=1"}, "", "sim-restart"},
 	{"procs32-lordhowe-gogc400-leveldb-restartall", []string{"GOMAXPROCS=32", "TZ=Australia/Lord_Howe", "GOGC=400"}, "goleveldb", "restart-all"},
+	{"procs3-chatham-leveldb-restarthistq", []string{"GOMAXPROCS=3", "TZ=Pacific/Chatham"}, "goleveldb", "restart-histq"},
 }
 
 // in-process replicas of every history (besides the generator's own instance, which also served the generator's
 // state reads and gas simulations): >= 8 executions in one process so that Go's per-range-statement randomisation of
 // map iteration gets enough draws, and every process-history mode is covered.
-var inprocModes = []string{"plain", "restart-all", "sim", "statesync", "restart", "plain", "sim-restart", "plain"}
+var inprocModes = []string{"plain", "restart-all", "sim", "statesync", "restart", "restart-histq", "sim-restart", "histq"}
 
 func runChild(v variation, idx int, histPath, workDir string) ([]string, string, error) {
 	return runChildBin(os.Args[0], v, idx, histPath, workDir)
